@@ -3,6 +3,7 @@ use crate::rng::Rng;
 use std::io::Write;
 
 pub mod duration;
+pub mod epoch;
 
 pub fn salt(prop: &str) -> u64 {
     let mut h: u64 = 0xcbf29ce484222325;
@@ -19,6 +20,13 @@ pub fn inputs(prop: &str, r: &mut Rng, n: usize, tier: &str, out: &mut dyn Write
         "C02" => duration::inputs_c02(r, n, tier, out),
         "C03" => duration::inputs_c03(r, n, tier, out),
         "C14" => duration::inputs_c14(r, n, tier, out),
+        "C04" => epoch::inputs_c04(r, n, tier, out),
+        "C05" => epoch::inputs_c05(r, n, tier, out),
+        "C06" => epoch::inputs_c06(r, n, tier, out),
+        "C12" => epoch::inputs_c12(r, n, tier, out),
+        "C15" => epoch::inputs_c15(r, n, tier, out),
+        "C16" => epoch::inputs_c16(r, n, tier, out),
+        "C20" => epoch::inputs_c20(r, n, tier, out),
         _ => panic!("no generator for {prop}"),
     }
 }
@@ -27,8 +35,13 @@ pub fn exec(op: &str, args: &[&str]) -> Option<String> {
     if let Some(r) = duration::exec(op, args) {
         return Some(r);
     }
+    if let Some(r) = epoch::exec(op, args) {
+        return Some(r);
+    }
     None
 }
 
 /// Extra constants contributed by the property modules.
-pub fn dump_consts(_m: &mut serde_json::Map<String, serde_json::Value>) {}
+pub fn dump_consts(m: &mut serde_json::Map<String, serde_json::Value>) {
+    epoch::dump_consts(m);
+}
